@@ -248,19 +248,32 @@ carquet_status_t carquet_batch_reader_next(
     carquet_error_t err = CARQUET_ERROR_INIT;
     int32_t num_row_groups = carquet_reader_num_row_groups(batch_reader->reader);
 
-    /* Check if we need to move to next row group */
+    /* A table without columns has nothing to deliver */
+    if (batch_reader->num_projected <= 0) {
+        *batch = NULL;
+        return CARQUET_ERROR_END_OF_DATA;
+    }
+
+    /* Check if we need to move to next row group. The column readers are
+     * absent before the first call and after a row group failed to open. */
     if (batch_reader->current_row_group < 0 ||
+        !batch_reader->col_readers[0] ||
         !carquet_column_has_next(batch_reader->col_readers[0])) {
 
-        batch_reader->current_row_group++;
-        if (batch_reader->current_row_group >= num_row_groups) {
+        if (batch_reader->current_row_group + 1 >= num_row_groups) {
             *batch = NULL;
             return CARQUET_ERROR_END_OF_DATA;
         }
+        batch_reader->current_row_group++;
 
         carquet_status_t status = open_row_group_readers(
             batch_reader, batch_reader->current_row_group, &err);
         if (status != CARQUET_OK) {
+            /* Stay in front of the group that could not be opened: a further
+             * call reports the same error again instead of touching readers
+             * that do not exist. */
+            batch_reader->current_row_group--;
+            *batch = NULL;
             return status;
         }
     }
